@@ -5,7 +5,8 @@ Outcome(kind) ==
     [] kind \in {"module_removed", "function_removed", "arg_class_removed", "return_class_removed", "yield_class_removed",
                  "class_module_removed", "local_scope", "class_module_removed_ret", "arg_class_removed_2",
                  "arg_module_removed_name_prefix"} -> "NameLookupError"
-    [] kind \in {"now_nonfunction", "now_class", "now_settable_property", "class_now_nontype", "class_now_nontype_ret"} -> "InvalidTypeError"
+    [] kind \in {"now_nonfunction", "now_class", "now_settable_property", "class_now_nontype", "class_now_nontype_ret",
+                 "dunder_removed", "dunder_removed_2"} -> "InvalidTypeError"
     [] kind = "nowraps" -> "ok_but_poisoned"
     [] OTHER -> "ok"
 DecodableKind(kind) == Outcome(kind) \in {"ok", "ok_but_poisoned"}
